@@ -536,7 +536,7 @@ def build(unit, outdir, vacuity=False):
     u.process(tpl)
     text, meta = u.finish()
     os.makedirs(outdir, exist_ok=True)
-    suffix = ".vac" if vacuity else ""
+    suffix = "_vac" if vacuity else ""
     out_rs = os.path.join(outdir, f"{unit}{suffix}.rs")
     open(out_rs, "w").write(text)
     json.dump(meta, open(os.path.join(outdir, f"{unit}{suffix}.map.json"), "w"))
